@@ -168,6 +168,34 @@ EXTRA = [
   s = inner(1)
   return (total, last, r, s)
 '''),
+    ('p:carried_by_conditional_at_loop_tail', '''def f(x, n, b, xs):
+  prev = 0
+  out = 0
+  for v in xs:
+    out = out + prev
+    if v > x:
+      prev = v
+    else:
+      prev = 1
+  acc = 0
+  i = 0
+  while i < n:
+    i = i + 1
+    out = out + acc
+    if i > 1:
+      if acc > x:
+        acc = acc - 1
+      elif b:
+        acc = acc + i
+  gain = 1
+  for k in range(n):
+    out = out + gain
+    if k == x:
+      continue
+    if k > 0:
+      gain = gain * 2
+  return (out, prev, acc, gain)
+'''),
     ('p:swap_and_tuple', '''def f(x, n, b, xs):
   a = 0
   c = 1
